@@ -151,6 +151,8 @@ def cases(seed, tier):
             d = {"gen": kind, "seed": rng.randrange(2 ** 31), "max_size": sizes[i % len(sizes)],
                  "vrows": vrows[k % 4], "irows": irows[(k // 4) % 3],
                  "extreme_scale": (i % 4 == 3), "sample": i in (1, 2)}
+            if kind == "tri":
+                d["planar_pt"] = (i % 3 == 0)
             if kind == "poly":
                 d["source"] = ["planar", "zoo", "nonconvex"][i % 3]
             if kind == "tet":
@@ -976,6 +978,8 @@ def history_pass(ctx, env, R, funcs, rng, judge):
         judge(ctx, "history", fn, extras, arr, R, env)
         if len(ctx.violations) > before:
             ctx.violations[-1]["witness"]["call_order"] = order[-12:]
+    if "face_normals" in funcs:
+        judge_curvature_matrices(ctx, "history", curvature_matrices_of(ctx, env, mesh=m), R, env)
     # global sums on the same mesh, after the attribute they reuse ("area" / "volume") has been stored under its default name
     import mouette as M
     A = M.attributes
@@ -1000,6 +1004,122 @@ def history_pass(ctx, env, R, funcs, rng, judge):
         if ok:
             glob("total_area", R.total_area, REL * 10 * float(np.sum(R.fdiam ** 2)))
             glob("mean_face_area", R.mean_face_area, REL * 10 * float(np.max(R.fdiam ** 2)))
+
+
+def curvature_matrices_of(ctx, env, mesh=None):
+    """curvature_matrices(mesh) -> (nE, 9) array or None (it has no options and returns a plain ndarray)."""
+    import mouette as M
+    m = env.fresh() if mesh is None else mesh
+    before = snapshot(m)
+    ok, val = ctx.call("curvature_matrices", M.attributes.curvature_matrices, m, abort=False)
+    if not ok:
+        return None
+    new = snapshot(m) - before
+    ctx.check(not new, "options", "attributes_left_behind", "curvature_matrices:leaves:%s" % ",".join(sorted("%s.%s" % e for e in new)),
+              "curvature_matrices left attributes on the mesh", new=sorted(map(list, new)))
+    try:
+        arr = np.asarray(val, dtype=float)
+    except Exception:
+        arr = None
+    if arr is None or arr.shape != (len(env.E), 3, 3):
+        ctx.violation("call", "curvature_matrices", "malformed_values", "curvature_matrices did not return an (n_edges,3,3) array",
+                      shape=list(getattr(arr, "shape", ())))
+        return None
+    return arr.reshape(len(env.E), 9)
+
+
+def curvature_expected(R, env):
+    exp = np.zeros((len(env.E), 9))
+    ang = np.zeros(len(env.E))
+    jd = np.zeros(len(env.E), bool)
+    for i, (a, b) in enumerate(env.E):
+        Mx, ang[i], jd[i] = R.edge_curvature_matrix(a, b)
+        exp[i] = Mx.reshape(9)
+    return exp, ang, jd
+
+
+def judge_curvature_matrices(ctx, monitor, arr, R, env):
+    if arr is None:
+        return
+    exp, ang, jd = curvature_expected(R, env)
+    K = 1.0 / max(math.sin(min(R.tri_min_angle, math.pi / 2)), 0.05)
+    ok = compare(ctx, monitor, "curvature_matrices", arr, exp, REL * 10 * K * (1 + ang), judged=jd,
+                 what="(angle between the two face normals) * outer(unit edge, unit edge), zero on border edges")
+    if not ok:
+        border = np.array([ekey(e) in R.border_edges for e in env.E])
+        bad = np.max(np.abs(arr - exp), axis=1) > REL * 10 * K * (1 + ang)
+        if border.any() and not bad[~border & jd].any():
+            ctx.violation(monitor, "curvature_matrices", "nonzero_on_border_edges", "curvature_matrices is not the zero matrix on border edges")
+
+
+def curvature_meta(ctx, monitor, env, envB, R, base, idx, Q, tolm):
+    a = base.get("curvature_matrices")
+    if a is None or ("ref", "curvature_matrices") in _failed(ctx):
+        return
+    b = curvature_matrices_of(ctx, envB)
+    if b is None or idx is None or len(idx) != len(a) or np.any(idx < 0):
+        return
+    _, ang, jd = curvature_expected(R, env)
+    exp = np.array([(Q @ Mx.reshape(3, 3) @ Q.T).reshape(9) for Mx in a])
+    compare(ctx, monitor, "curvature_matrices", b[idx], exp, tolm * 100 * (1 + ang), judged=jd, what="R M R^T under a rigid motion, unchanged by a scale")
+
+
+def planar_transport_pass(ctx, desc, rng):
+    """parallel_transport_curvature on planar triangle meshes: a planar mesh has no curvature.  Canonical flat connection in the plane z=0
+    (every face), vertex connection (faces with three interior vertices), the latter also on a rigidly moved + scaled copy of the plane."""
+    for attempt in range(20):
+        k = rng.randrange(3)
+        if k == 0:
+            V, F, name = surfaces.grid(rng.randint(2, 5), rng.randint(2, 5), rng.choice(["tri", "tri_alt"]), rng)
+            nr = np.random.default_rng(rng.randrange(2 ** 31))
+            V = V + np.c_[nr.uniform(-0.08, 0.08, (len(V), 2)), np.zeros(len(V))]
+        elif k == 1:
+            V, F, name = surfaces.delaunay_disk(rng, rng.randint(8, 40), rng.choice(["uniform", "clustered"]), lift=False)
+        else:
+            V, F, name = surfaces.fan(rng.randint(4, 9), closed=True)
+            V = V * np.array([1.0, 1.0, 0.0])
+        V = np.asarray(V, float)
+        if rng.random() < 0.4:
+            F = surfaces.flip(F)
+        V, F, _ = surfaces.renumber(V, F, rng)
+        F = surfaces.rotate_faces(F, rng)
+        a = surfaces.topo.analyse(len(V), F)
+        if not (a["manifold"] and a["oriented"] and a["border_ok"] and a["unused_vertices"] == 0):
+            continue
+        try:
+            R = geomq.SurfaceRef(V, F)
+        except (ZeroDivisionError, FloatingPointError, ValueError):
+            continue
+        if R.tri and _surface_gate(R, True):
+            break
+    else:
+        ctx.note("no_planar_input_for_transport_pass")
+        return
+    ctx.cls("planar_transport:" + name.split("_")[0])
+    spec = SURF_FUNCS["parallel_transport_curvature"]
+    env = Env(ctx, "surface", V, F, desc["vrows"], desc["irows"])
+    if not env.probe():
+        return
+    env.planar = True
+    for pt in ("flat", "scv"):
+        for persistent in (True, False):
+            for dense in (True, False):
+                ex = {"_pt": pt}
+                arr = call_quantity(ctx, env, "parallel_transport_curvature", spec, persistent, dense, rng.choice([None, "c07_ptc"]), ex)
+                judge_surface(ctx, "ref", "parallel_transport_curvature", ex, arr, R, env)
+    Q = surfaces.random_rotation(rng)
+    sc = 10 ** rng.uniform(-2, 2)
+    VB = (V @ Q.T) * sc + np.array([rng.uniform(-2, 2) for _ in range(3)]) * sc
+    try:
+        RB = geomq.SurfaceRef(VB, F)
+    except (ZeroDivisionError, FloatingPointError, ValueError):
+        return
+    envB = Env(ctx, "surface", VB, F, desc["vrows"], desc["irows"])
+    if envB.probe():
+        envB.planar = True
+        ex = {"_pt": "scv"}
+        arr = call_quantity(ctx, envB, "parallel_transport_curvature", spec, rng.random() < 0.5, rng.random() < 0.5, None, ex, check_left=False)
+        judge_surface(ctx, "rigid", "parallel_transport_curvature", ex, arr, RB, envB)
 
 
 def custom_normals_after_cached_normals(ctx, env, R, rng):
@@ -1162,12 +1282,19 @@ def run_surface(desc, ctx):
     ctx.cls("rows:%s/%s" % (desc["vrows"], desc["irows"]))
 
     env.custom_normals = -R.normal
+    env.planar = planar
     base = option_sweep(ctx, env, R, SURF_FUNCS, rng, judge_surface)
+    cm = curvature_matrices_of(ctx, env)
+    if cm is not None:
+        base["curvature_matrices"] = cm
+        judge_curvature_matrices(ctx, "ref", cm, R, env)
     identities_surface(ctx, env, R, base)
     globals_check(ctx, env, R, rng, "surface")
     interpolation_constants(ctx, env, rng, "surface")
     history_pass(ctx, env, R, SURF_FUNCS, rng, judge_surface)
     custom_normals_after_cached_normals(ctx, env, R, rng)
+    if desc.get("planar_pt"):
+        planar_transport_pass(ctx, desc, rng)
     if desc.get("source") == "nonconvex":
         face_rotations(ctx, env, R, rng, desc)
 
@@ -1199,7 +1326,9 @@ def run_surface(desc, ctx):
         tolm = meta_tolerance(R, float(np.max(np.abs(VB))))
         ctx.cls("meta_tol:%s" % ("<=1e-8" if tolm <= 1e-8 else ("<=1e-6" if tolm <= 1e-6 else ">1e-6")))
         if tolm <= 1e-5:
+            envB.planar = planar
             metamorphic(ctx, "rigid", env, envB, SURF_FUNCS, R, base, rng, maps, Q, t, 1.0, tolm, judgeable)
+            curvature_meta(ctx, "rigid", env, envB, R, base, maps.get("edges"), Q, tolm)
             transformed_globals(ctx, "rigid", env, envB, R, Q, t, 1.0, tolm, "surface")
         else:
             ctx.note("rigid_pass_skipped(ill_scaled_input)")
@@ -1218,7 +1347,9 @@ def run_surface(desc, ctx):
                  "face_corners": np.arange(len(env.CN)) if env.CN == envS.CN else corner_map(env.CN, envS.CN, None, None)}
         tolm = meta_tolerance(R, R.maxabs)
         if tolm <= 1e-5:
+            envS.planar = planar
             metamorphic(ctx, "scale", env, envS, SURF_FUNCS, R, base, rng, ident, np.eye(3), np.zeros(3), s, tolm, judgeable)
+            curvature_meta(ctx, "scale", env, envS, R, base, ident.get("edges"), np.eye(3), tolm)
             transformed_globals(ctx, "scale", env, envS, R, np.eye(3), np.zeros(3), s, tolm, "surface")
 
     if desc.get("sample") and base.get("corner_angles") is not None and env.CN is not None:
